@@ -485,7 +485,9 @@ def load_database(dbpath, rootdir):
 
         # Skip files that don't exist.
         # (e.g., because they're generated by running make)
-        if not os.path.exists(path):
+        # A directory (or a link to one) is not a file a compiler could
+        # open either, whatever its name looks like.
+        if not os.path.isfile(path):
             log.warning(f"Ignoring non-existent file: {path}")
             continue
 
